@@ -65,5 +65,11 @@ CHECKS = {
   text="All warning-emitting call sites of the package are enumerated statically and must name a catalogue member. Every set of <= 2 (3) of 16 document-reachable triggers (plus front-matter and slug-function triggers), plain and nested in a quote and a directive, is rendered with no suppression and under every emitted tag, the bare type, type.*, foreign tags and pairs: each trigger must emit its [type.subtype] tag, no myst tag outside the catalogue may appear, and the log and the doctree (pre- and post-transform) under suppression must equal the unsuppressed ones with exactly the tagged items deleted. 13 Sphinx-reachable triggers are built in-process under 4 suppress lists each with the same relation on log and stored doctree.",
   note="Trusted: the catalogue = MystWarnings + ref.footnote; framed documents; DIRECTIVE_BODY/RENDER_METHOD/HTML_PARSE static only; allow-listed untagged docutils-policy messages; xref_ambiguous / domains (need a multi-document project / legacy domain) are exercised only statically.",
  ),
+ "C20": dict(
+  category="exploration",
+  technique="bounded exhaustive enumeration of raw- and file-carrying constructs x nesting contexts x runs of adjacent constructs x the 2x2 security settings, executed through publish_doctree and the html5 writer with sentinel payloads and an open() audit hook; invariant oracle on every execution",
+  text="Each of 17 raw-carrying and 13 file-carrying constructs is placed at top level, in a quote, list item, note, colon directive, included file and substitution value (thorough: every pair of contexts) and in runs of 2-4 adjacent raw siblings, and rendered under raw_enabled x file_insertion_enabled: with raw disabled no raw node and no unescaped sentinel element may reach doctree or HTML; with file insertion disabled no sentinel file content may appear and the audit hook must see no open() of a sentinel file; every refusal is reported and the surrounding paragraphs survive; with both settings on the payload must appear (vacuity guard).",
+  note="Pure invariant (no reference model), hence 'exploration'. Trusted: sentinel detection; audit hook sees every open(); docutils front end; writer-side file reads out of scope.",
+ ),
 }
 NOT_APPLICABLE = {}
